@@ -30,3 +30,178 @@ reg("C22", "exploration",
     "random/structured arrays at every run/merge boundary up to 2^14+1.",
     "Trusts the 10-line reference insertion sort and ASan red zones for overrun detection; comparison callbacks are strict weak orders.",
     "sanitizer-hosted native harness with reference-model oracle (exhaustive small space + seeded random)")
+
+reg("C03", "exploration",
+    "The unmodified engine_thread.cc is executed under a controlled scheduler (instrumented std::atomic/std::thread "
+    "stand-ins, token passing, every atomic op / thread start / join a scheduling point): depth-first enumeration with a "
+    "preemption bound (exhaustive under the bound on the listed tiny create/resize/dispatch/destroy histories), PCT and "
+    "random walks on longer histories, plus real OS threads under rel and TSan with the repo's task hook logging every "
+    "invocation and injecting delays. The oracle is the sequential specification: executed ids == {0..n-1} exactly once, "
+    "all ends before Dispatch returns, thread ids within the pool, stack pointer restored, no live worker after destroy; "
+    "a state with every thread blocked is a deadlock. Evidence counts distinct schedules and scheduling points.",
+    "Trusts the scheduler shim (sequentially consistent interleavings only; busy-wait parking is sound only for loops that "
+    "wait for a write) and TSan's happens-before model on x86-64. Not a proof over all schedules.",
+    "controlled-scheduler execution of real code (DFS with preemption bound, PCT, random) + TSan on real threads, sequential-spec oracle")
+
+reg("C40", "exploration",
+    "One registration/lookup history per fresh process against the real process-global tables: sequential histories are "
+    "checked against a reference map (dense stable slots, case-insensitive keys, identical vs conflicting "
+    "re-registration, by-name/by-slot agreement, negative lookups) for plugins, resource providers, decoders and encoders; "
+    "concurrent histories (1-4 writers registering self-verifying objects in different orders, 1-4 readers doing by-slot "
+    "scans, by-name lookups and unknown-key scans across the 15/16 block boundary) run under ThreadSanitizer at -O1 and -O0 "
+    "and under ASan, and every object a reader obtains is verified field by field against the deterministic function of its key.",
+    "Trusts TSan's interception of std::mutex/std::atomic; explores only the interleavings the OS produced (counted); "
+    "x86-64 hides weak-memory reorderings.",
+    "TSan/ASan-hosted concurrent histories with self-verifying objects + sequential reference-model oracle")
+
+reg("C49", "other",
+    "Every struct, field, enum, enumerator, function and parameter in python/mujoco/introspect is compared with what clang "
+    "reports for include/mujoco/mujoco.h by generating C11 probe programs from the metadata (offsetof, sizeof, _Alignof, "
+    "__builtin_types_compatible_p, twin structs, enumerator values, function-pointer prototypes, declared parameter texts), "
+    "compiling them against the real headers and running them; conversely every record/enum/function in clang's JSON AST "
+    "that the generator's documented rules export must appear in the metadata with the same member list, order and extents; "
+    "parse_type/decl() are round-tripped on all metadata and header type strings plus hypothesis-generated declarators with "
+    "the compiler deciding equivalence. The API surface is finite and enumerated completely (exhaustive: true).",
+    "Trusts clang 14 (plus gcc in thorough) on x86-64 as the definition of 'as the C compiler sees it', clang's JSON AST dump, "
+    "the harness's own typedef-chain emitter, and the documented exclusion list of codegen/ (variadic ellipsis not representable).",
+    "executed compiler probes generated from the metadata, exhaustive over the finite API, plus property-based declarator round trip")
+
+reg("C02", "exploration",
+    "For each scene and option vector one mjData per engine thread-pool size (0 and a random subset of 1,2,3,5,8) is put in the "
+    "same state and driven through the same forward/inverse/step sequence; every deterministic output (contacts, efc arrays, "
+    "islands, sensordata, accelerations, next state, solver statistics) is compared bit for bit with the pool-0 run while the "
+    "repo's task hook injects seeded yields, spins and sleeps before each task. The same scenes run in a native harness under "
+    "ThreadSanitizer and ASan with pools of 1-8 workers (any report is a violation) and state digests are compared across pool "
+    "sizes. Scenes are built to reach the parallel sites: heaps in 6-16 separate clusters (many islands) and dense clouds "
+    "(hundreds of narrow-phase pairs, several collision chunks), plus multi-island corpus models.",
+    "Evidence counts the tasks that actually ran on worker threads; a run in which none did is inconclusive. The tactile-sensor "
+    "parallel site is not reached in this build (needs mesh/SDF assets). TSan sees only the interleavings that occurred.",
+    "twin execution across pool sizes with hook-injected schedule noise (bitwise oracle) + TSan/ASan-hosted native runs")
+
+reg("C04", "exploration",
+    "Split and skipped pipeline calls are compared bit for bit with the monolithic calls on mj_copyData twins under random option "
+    "vectors: step1+[set ctrl/qfrc_applied/xfrc_applied]+step2 vs the same inputs before mj_step (Euler, implicit, implicitfast); "
+    "mj_forwardSkip/mj_inverseSkip(POS|VEL, skipsensor) after a full call, with the inputs the skipped stage must not read "
+    "perturbed in both twins, vs the same function at mjSTAGE_NONE; mjSTATE_INTEGRATION before/after mj_forward; idempotence of "
+    "mj_forward with warm-starting disabled. Half of the generated models carry sensors that force the lazily evaluated quantities.",
+    "Trusts mj_copyData and the output canonicalisation of vf/common.py. RK4 excluded from the split-step clause and sleeping "
+    "disabled (both documented); callbacks unset.",
+    "twin-execution metamorphic oracle (bitwise) over generated and shipped models")
+
+reg("C06", "exploration",
+    "The engine's sparse joint-space inertia, its L'DL factorisation and solves, the bias force and mj_rne are compared against an "
+    "independent dense numpy rigid-body model (own forward kinematics, sum of J'IJ plus joint/actuator/tendon armature, world-frame "
+    "Newton-Euler) over generated trees (all joint types, branching, nv up to 76) and the loadable corpus (nv up to 340), on the "
+    "rel flavour and a scalar subsample: symmetry, positive definiteness, M == reference, L'DL == M, mulM/solveM/solveM2/mulM2 "
+    "against dense algebra, qfrc_bias == RNE(0) + tendon bias, RNE(a) == M a - armature a + bias.",
+    "Trusts vf/ref/rbd.py (self-tested), numpy eigvalsh/solve, the engine's ten_J. One open known finding (tendon armature "
+    "coupling dofs of different branches is dropped from M) is reported as KNOWN-FINDING.",
+    "reference-model differential oracle on executions of the real engine")
+
+reg("C07", "exploration",
+    "Frames, all Jacobian variants (mj_jac at random points, jacBody/BodyCom/Geom/Site/SubtreeCom/PointAxis, sparse variants, "
+    "jacDifPair), spatial velocities, mj_jacDot, integratePos/differentiatePos and tendon/constraint rows (ten_J, efc_J for "
+    "connect/weld/joint/tendon equalities, limits and contact normals) are checked against centred finite differences of the "
+    "engine's own positions along mj_integratePos (two step sizes, kink and discontinuity guards) and against the same "
+    "independent numpy reference as C06.",
+    "Trusts vf/ref/rbd.py and the finite-difference guards; compiler 'sameframe' shortcuts are compared at the compiler's own "
+    "1e-6 frame tolerance.",
+    "finite-difference derivative oracle + reference-model differential oracle")
+
+reg("C19", "exploration",
+    "A shadow allocator fed by the repo's allocator hook observes every stack/arena allocation, mark and free of an mjData and "
+    "checks alignment, containment in the stack/arena regions, overlap with live blocks (including blocks reserved concurrently "
+    "under the thread lock) and that each free restores the pstack/pbase recorded at its mark. Workloads: a direct native harness "
+    "issuing random well-nested mark/alloc/free/arena sequences on arenas of 1K-1M with sizes 0, 1, primes, near and beyond the "
+    "remaining space and alignments 1-4096, per-block byte patterns re-verified before death, exhaustion required to be mju_error "
+    "(stack) or NULL (arena), concurrent reservations from real mju_dispatch tasks under rel/TSan/ASan; and in situ real "
+    "step/forward/inverse/derivative/ray calls on corpus and generated models with pools of 0 and 4 workers where pstack/pbase "
+    "are compared before and after every public call (plus an ASan subsample where the repo's own red zones are active).",
+    "Arena blocks above a new block's start are treated as released in situ, because the engine rewinds parena itself; "
+    "ASan cannot see overlaps inside the single arena allocation, which is why the shadow allocator exists.",
+    "hook-fed shadow-state monitor + pattern-verified direct harness under ASan/TSan")
+
+reg("C23", "exploration",
+    "Every exported dense, band and sparse linear-algebra routine, mju_eig3 and the QP helpers are run on seeded random inputs "
+    "over sizes 0-70 (every residue mod 8), sparsity patterns and layouts (compressed, uniform-capacity and gapped rows with "
+    "poisoned unused slots), conditioning and bounds, on the AVX ('rel') and scalar builds in separate processes and on ASan with "
+    "exact-size operands; results are compared with dense numpy/LAPACK definitions (KKT conditions for boxQP/QCQP) and with each other.",
+    "Trusts numpy/LAPACK and the CSR reader/generator in vf/ref/sparse.py. One open known finding (mju_sqrMatTDSparse vs its "
+    "documented precount) is reported as KNOWN-FINDING.",
+    "reference-model differential oracle + cross-build twin execution + sanitizer with poisoned layouts")
+
+reg("C24", "exploration",
+    "Every mju_ quaternion / rotation / Euler (all 216 sequence strings) / pose routine and both quaternion Jacobians are executed "
+    "on angle grids (0, 1e-12 ... pi +- 1e-8, pi, 2pi) and random inputs, unit / non-unit / near-zero quaternions, and compared in "
+    "rotation-matrix space against an expm-based reference (so quaternion sign and the axis ambiguity at pi never matter) and "
+    "against centred finite differences of the engine's own mju_subQuat / mju_quatIntegrate.",
+    "Trusts scipy expm and the right-perturbation Jacobian convention. One open known finding (mjd_quatIntegrate Dvel is the "
+    "derivative w.r.t. scale*vel) is reported as KNOWN-FINDING.",
+    "reference-model differential oracle + finite-difference Jacobian oracle")
+
+reg("C26", "exploration",
+    "For every model the state API is checked against a field-by-field reference: mj_stateSize and the canary-guarded mj_getState "
+    "output vs a Python concatenation of the mjData fields in mjtState bit order for all single bits, pairs, named composites and "
+    "random signatures (all 2^14 signatures per model in thorough); mj_setState/mj_copyState into a differently-filled mjData vs "
+    "the expected byte image of the whole mjData (selected components restored, everything else untouched); mj_extractState on "
+    "sub-signature pairs; invalid signatures must raise without writing; mj_resetData vs a fresh mj_makeData; "
+    "mj_resetDataKeyframe vs key_* arrays plus reset defaults. A test plugin with state makes every component non-empty.",
+    "Trusts the X-macro field table and ctypes driver; struct padding and arena contents beyond parena are not compared.",
+    "exhaustive signature enumeration with byte-image twin and canary/ASan exact buffers")
+
+reg("C34", "exploration",
+    "Name/id inversion is checked per object type against a linear scan of the model's own name table on models generated with "
+    "adversarial name sets (shared prefixes, case variants, same name across types, constructed mj_hashString bucket and full "
+    "collisions that fill probe chains and wrap around) and on the corpus: every id round-trips, out-of-range ids (-1, n, n+1, "
+    "INT_MAX, INT_MIN) give NULL, and ~400 negative queries per model (other-type names, prefixes, suffixes, concatenations, "
+    "empty and 1 kB strings, colliding non-names) give -1; an ASan subsample covers the probing.",
+    "The hash is re-implemented only to FIND colliding names, never as the oracle. Types that must be named in MJCF are not "
+    "exercised unnamed.",
+    "generator-driven differential oracle with constructed hash collisions")
+
+reg("C41", "exploration",
+    "icontract post-conditions are attached from the harness to the repo's parse_string (the returned schema satisfies every "
+    "documented rule according to an independent re-validator; no declaration lost or duplicated) and to an attempt wrapper "
+    "(outcome is a schema or a SchemaError whose line lies in 1..lines; nothing else escapes). Workload: grammar-derived valid "
+    "schemas (must be accepted and equal the source model), one dedicated mutator per documented rule (must be rejected), "
+    "token-level mutations, hypothesis token streams and unicode text, deep nesting, the real mjcf.schema and mutations of it, "
+    "and the repo's own 57 schema tests run under the contracts. Contract evaluation counts are recorded; zero is inconclusive.",
+    "Trusts vf/ref/mjcfschema.py (re-validator and generator). Three open known findings are reported as KNOWN-FINDING.",
+    "design-by-contract runtime monitoring + grammar-based and rule-mutation fuzzing")
+
+reg("C42", "exploration",
+    "Each of the seven generators is run on the real schema and on validity-preserving perturbations of it (15 kinds; synthetic "
+    "schemas for the anchor-light generators) with its paths redirected to scratch files; one independent back-parser per output "
+    "format (XSD via etree, C initialiser tokenizer for the tables, mjcf_map.h, read/default tables, dm_control XML, rst) "
+    "reconstructs {element -> attribute -> type, arity, default} and {enum -> keyword -> constant} and compares it with the schema; "
+    "every output is regenerated in separate processes under different PYTHONHASHSEED values and compared by hash.",
+    "'Any valid schema' is explored as the neighbourhood the generators are written for (they hard-code anchors of the real "
+    "schema). Trusts the back-parsers and the generators' documented constant tables. One open known finding.",
+    "round trip through independent back-parsers + cross-process hash-seed twin runs")
+
+reg("C46", "exploration",
+    "A recording proxy around the user's residual checks every column of every call (finite-difference probes included) against "
+    "the box; icontract post-conditions on least_squares check x inside the bounds, obj(x) <= obj(clip(x0)), a non-increasing "
+    "trace, and for full-rank linear residuals with converged status a gap of at most 1e-8 to scipy lsq_linear (KKT re-checked). "
+    "Hypothesis generates dimensions 1-8, linear (incl. rank-deficient), quadratic, Rosenbrock-like and exp-sum residuals, starts "
+    "inside/outside/on the bounds, tight and wide boxes, and every x_scale form.",
+    "The repo's minimize.py is loaded in place of the wheel's copy; mju_boxQP comes from the installed 3.13.0 wheel (a dependency "
+    "of the module, not the code under test). One open known finding (far-start linear problems).",
+    "recording proxy at the residual boundary + icontract post-conditions on hypothesis-generated problems")
+
+reg("C47", "exploration",
+    "deal post-conditions on pi_from_theta (positive mass, positive-definite pseudo-inertia, triangle inequalities, match with a "
+    "cancellation-free closed form), pseudoinertia_from_pi, theta_from_pseudoinertia, the composed round trip, and "
+    "apply_body_theta_inertia (the spec must compile and the compiled mass, COM and full inertia tensor must equal the "
+    "parameters), driven by hypothesis over boxes of half-width 3 (6 in thorough) plus corners and axes.",
+    "Round-trip tolerance scales with cond(J); compilation goes through the installed wheel's MjSpec (a dependency of the module).",
+    "deal runtime contracts against a closed-form log-Cholesky reference + compilation through MjSpec")
+
+reg("C48", "exploration",
+    "icontract snapshot/ensure monitors on every modifier and on TimeSeries.interpolate/resample: inputs (times, data, mappings, "
+    "parameter values) must be bitwise unchanged and the result must be a new object; grouped-delay resampling must equal the "
+    "column-by-column result bit for bit; resampling at the original timestamps must return the data; interpolated values must "
+    "lie within their neighbouring samples. Hypothesis generates series of 1-200 samples x 1-6 columns with non-uniform times, "
+    "signal mappings, delays (0, negative, beyond range), gains and biases.",
+    "Memory sharing between output and input is counted, not flagged (the statement forbids modifying the input, not sharing it).",
+    "icontract snapshot/ensure purity monitor + bitwise column-wise metamorphic relation")
